@@ -407,25 +407,25 @@ func (g *gen) objectsOrder() []string {
 		return nil
 	}
 	var out []string
+	// any statement that appends to the result (range loop, index loop, guarded append, ...):
+	// the OSM field it draws from is the first one mentioned in it
 	for _, st := range fd.Body.List {
-		switch s := st.(type) {
-		case *ast.RangeStmt:
-			if n, ok := selName(s.X); ok {
-				out = append(out, n)
-			}
-		case *ast.IfStmt:
-			// only an if whose body appends to result counts
-			for _, b := range s.Body.List {
-				if as, ok := b.(*ast.AssignStmt); ok && len(as.Rhs) == 1 {
-					if c, ok := as.Rhs[0].(*ast.CallExpr); ok && len(c.Args) == 2 {
-						if id, ok := c.Fun.(*ast.Ident); ok && id.Name == "append" {
-							if n, ok := selName(c.Args[1]); ok {
-								out = append(out, n)
-							}
-						}
-					}
+		hasAppend, field := false, ""
+		ast.Inspect(st, func(n ast.Node) bool {
+			switch x := n.(type) {
+			case *ast.CallExpr:
+				if id, ok := x.Fun.(*ast.Ident); ok && id.Name == "append" {
+					hasAppend = true
+				}
+			case *ast.SelectorExpr:
+				if f, ok := g.osmField(x); ok && field == "" {
+					field = f
 				}
 			}
+			return true
+		})
+		if hasAppend && field != "" {
+			out = append(out, field)
 		}
 	}
 	return out
